@@ -87,6 +87,8 @@ class World:
         return len(self.objs)
 
     def gid(self, grp):
+        if not isinstance(grp, self.osyris.Datagroup):
+            return -1
         for i, g in enumerate(self.groups):
             if g is grp:
                 return i + 1
@@ -196,6 +198,11 @@ class World:
                 D[a["d"] - 1][a["k"]] = G[a["g"] - 1]
             elif op == "dssetbad":
                 D[a["d"] - 1][a["k"]] = O[a["o"] - 1]
+            elif op == "dsupdatebad":
+                if self.nstep % 2:
+                    D[a["d"] - 1].update({a["k"]: O[a["o"] - 1]})
+                else:
+                    D[a["d"] - 1].update(**{a["k"]: O[a["o"] - 1]})
             elif op == "dsdel":
                 del D[a["d"] - 1][a["k"]]
             elif op == "dspop":
@@ -278,7 +285,8 @@ class World:
             parent = getattr(g, "parent", None)
             dgs.append({"keys": keys, "val": [self.oid(g[k]) for k in keys], "name": g.name,
                         "parent": 0 if parent is None else self.did_or0(parent)})
-        dss = [{"keys": list(d.keys()), "val": [self.gid(d[k]) for k in d.keys()], "meta": list(d.meta.keys())} for d in self.dsets]
+        DG = self.osyris.Datagroup
+        dss = [{"keys": list(d.keys()), "val": [self.gid(d[k]) if isinstance(d[k], DG) else -1 for k in d.keys()], "meta": list(d.meta.keys())} for d in self.dsets]
         return {"objs": objs, "share": share, "dgs": dgs, "dss": dss, "res": self.res}
 
 
